@@ -470,7 +470,20 @@ def _mk_cblist(w, cbs):
     return w.cblist
 
 
+def _user_callbacks(names):
+    from qucumber.callbacks import CallbackBase
+
+    class UserCallback(CallbackBase):
+        def __init__(self, tag):
+            self.tag = tag
+
+        def __repr__(self):
+            return "<user callback %s>" % self.tag
+    return tuple(UserCallback(n) if isinstance(n, str) else n for n in names)
+
+
 def run_fit(vc, w, f, user_callbacks=("CB1",), time=False, me=None, bases_obj=None):
+    user_callbacks = _user_callbacks(user_callbacks)
     """One symbolic execution of fit in the ghost world; obligations are routed by property.
     `me` / `bases_obj` allow a second call on the same state object with the caller's same bases object."""
     import torch
